@@ -356,6 +356,8 @@ class SymEval:
                 if name == "sorted" and len(args) == 1 and not kwargs and args[0].op == "call" and args[0].args[0] in ("tuple", "list") and len(args[0].args) == 3:
                     a_, b_ = args[0].args[1], args[0].args[2]
                     return S.call("list", S.emin(a_, b_), S.emax(a_, b_))
+                if name == "divmod" and len(args) == 2 and not kwargs:
+                    return S.call("tuple", S.floordiv(args[0], args[1]), S.mod(args[0], args[1]) if hasattr(S, "mod") else S.sub(args[0], S.mul(S.floordiv(args[0], args[1]), args[1])))
                 if name == "max":
                     return S.emax(*args) if len(args) > 1 else S.call("max", *args)
                 if name == "min":
